@@ -189,7 +189,13 @@ def analyse(ctype, r, c, standards):
 def leakage_ok(ctype, r, c, observations):
     """observations: list of (S p x p, given r x c bool mask).  Every
     off-diagonal cell (i,k) must have been measured at least once with no
-    path from driven port k to detector i through the standard."""
+    path between ports i and k through the standard, in EITHER direction:
+    the library groups the ports of a standard into connected sets without
+    regard to direction (a one-way device still ties its ports together),
+    and only a cell between two different sets is a leakage sample.  The
+    directed criterion (no path from k to i) is physically sufficient but
+    counts samples the library does not use; sets that determine the terms
+    only under it are grey (class G), not determined."""
     if ctype not in ("TE10", "UE10", "UE14", "E12"):
         return True
     need = {(i, k) for i in range(r) for k in range(c) if i != k}
@@ -201,6 +207,7 @@ def leakage_ok(ctype, r, c, observations):
             for b in range(p):
                 v = S[a, b]
                 conn[a, b] = (a != b) and not (v == v and v == 0)
+        conn = conn | conn.T
         reach = conn.copy()
         for _ in range(p):
             reach = reach | ((reach.astype(int) @ reach.astype(int)) > 0)
